@@ -237,7 +237,14 @@ fn bsearch_transitions(s: &[Transition], key: i64) -> (r: Result<usize, usize>)
 #[verifier::external_body]
 fn tzname_equal(a: &TimeZoneName, b: &TimeZoneName) -> (r: bool) { unimplemented!() }
 ''')
-    u.stub(F, 'unix_leap_time_to_unix_time', IMPL)
+    u.raw('''
+#[verifier::external_body]
+fn bsearch_leaps(s: &[LeapSecond], key: i64) -> (r: Result<usize, usize>)
+    ensures (r is Ok ==> r->Ok_0 < s@.len() && r->Ok_0 < usize::MAX), (r is Err ==> r->Err_0 <= s@.len())
+{ unimplemented!() }
+''')
+    u.prove(F, 'unix_leap_time_to_unix_time', IMPL, cid='TimeZoneRef::unix_leap_time_to_unix_time',
+            subst=[('self\n            .leap_seconds\n            .binary_search_by_key(&(unix_leap_time - 1), LeapSecond::unix_leap_time)', 'Self::bsearch_leaps(self.leap_seconds, unix_leap_time - 1)', 'std slice::binary_search_by_key through its contract stub (bounds only)')])
     u.prove(F, 'validate', IMPL, cid='TimeZoneRef::validate',
             subst=[('self.transitions.last()', 'last_transition(self.transitions)', 'std slice::last through its contract stub'),
                    ('(Some(x), Some(y)) => x.equal(y),', '(Some(x), Some(y)) => Self::tzname_equal(x, y),', 'TimeZoneName::equal (array comparison) through an uninterpreted stub')],
